@@ -50,8 +50,8 @@ def constrain_ages(rng, hint):
 
 
 def damp(rng, hint):
-    x = [float(rng.random() * 10 ** rng.integers(-3, 4) - 0.99), float(rng.random() * 10 ** rng.integers(-6, 6) + 1e-300)]
-    y = [float((rng.random() - 0.3) * 10 ** rng.integers(-3, 5)), float((rng.random() - 0.3) * 10 ** rng.integers(-6, 7))]
+    x = [float(rng.random() * 10.0 ** rng.integers(-3, 4) - 0.99), float(rng.random() * 10.0 ** rng.integers(-6, 6) + 1e-300)]
+    y = [float((rng.random() - 0.3) * 10.0 ** rng.integers(-3, 5)), float((rng.random() - 0.3) * 10.0 ** rng.integers(-6, 7))]
     if rng.random() < 0.1:
         x, y = [0.0, 0.0], [0.0, 0.0]
     if rng.random() < 0.1:
@@ -60,7 +60,7 @@ def damp(rng, hint):
 
 
 def rescale(rng, hint):
-    x = [float(rng.random() * 10 ** rng.integers(-3, 5) - 0.99), float(rng.random() * 10 ** rng.integers(-6, 6) + 1e-300)]
+    x = [float(rng.random() * 10.0 ** rng.integers(-3, 5) - 0.99), float(rng.random() * 10.0 ** rng.integers(-6, 6) + 1e-300)]
     if rng.random() < 0.1:
         x = [0.0, 0.0]
     return {"x": x, "s": float(rng.choice([1.0000001, 1.5, 5.0, 1000.0]))}
@@ -87,8 +87,8 @@ def reallocate_unphased(rng, hint):
 
 def piecewise_point(rng, hint):
     K = int(rng.integers(1, 6))
-    ob = np.concatenate([[0.0], np.cumsum(rng.random(K - 1) * 10 ** rng.integers(-2, 3) + 1e-6)])
-    rb = np.concatenate([[0.0], np.cumsum(rng.random(K - 1) * 10 ** rng.integers(-2, 3) + 1e-6)])
+    ob = np.concatenate([[0.0], np.cumsum(rng.random(K - 1) * 10.0 ** rng.integers(-2, 3) + 1e-6)])
+    rb = np.concatenate([[0.0], np.cumsum(rng.random(K - 1) * 10.0 ** rng.integers(-2, 3) + 1e-6)])
     n = int(rng.integers(0, 8))
     pe = rng.random(n) * (ob[-1] * 1.5 + 1.0)
     if n and rng.random() < 0.5:
@@ -108,7 +108,19 @@ def fixed_changepoints(rng, hint):
     return {"counts": c.tolist(), "epochs": int(rng.integers(1, 7))}
 
 
-GENS = {"fixed_changepoints": fixed_changepoints, "piecewise_point": piecewise_point, "reallocate_unphased": reallocate_unphased, "constrain_ages": constrain_ages, "damp": damp, "rescale": rescale}
+def change_time_measure(rng, hint):
+    K = int(rng.integers(1, 6))
+    b = np.concatenate([[0.0], np.cumsum(rng.random(K - 1) * 10.0 ** rng.integers(-1, 3) + 1e-3)])
+    m = rng.random(K) * 10.0 ** rng.integers(-1, 3) + 1e-3
+    t = rng.random(int(rng.integers(0, 6))) * (b[-1] * 1.5 + 1)
+    if len(t) and rng.random() < 0.5:
+        t[0] = 0.0
+    if len(t) > 1 and rng.random() < 0.5:
+        t[1] = b[int(rng.integers(0, K))]
+    return {"time_ago": np.sort(t).tolist(), "breakpoints": b.tolist(), "time_measure": m.tolist()}
+
+
+GENS = {"change_time_measure": change_time_measure, "fixed_changepoints": fixed_changepoints, "piecewise_point": piecewise_point, "reallocate_unphased": reallocate_unphased, "constrain_ages": constrain_ages, "damp": damp, "rescale": rescale}
 
 
 def main():
